@@ -236,6 +236,7 @@ def run(res, tier):
                 "identical to 1e-9, listed fields scaled by the expected factor, all other fields equal in magnitude with one sign per array. distinct by (pair)")
     res.trusted += ["the mirrored input is produced by reflecting the psi array and wall exactly; numerical paths (solve_ivp, Newton) differ in rounding only"]
     ex = ["onsurface", "regions"]
+    shared_array_relations(res)
     pairs = []   # (tag, kind, specA, specB)
 
     def mirror_pair(geo, options, **kw):
@@ -288,6 +289,42 @@ def run(res, tier):
             compare_mirror(res, t, A, B, a)
         else:
             compare_reversal(res, t, kind, A, B, a)
+
+
+def shared_array_relations(res):
+    """default, psi_divide_twopi and reverse_current equilibria built one after the other from the SAME input arrays: psi, Bp and the field
+    magnitudes of the later ones stand in the stated relations to the first (equilibrium level, no grid)"""
+    import contextlib
+    import io
+    import warnings
+    from hypnotoad import tokamak
+    from props.c14 import example
+
+    r1, z1, p2, p1 = example("lsn")
+    fpol = 2.5 + 0.8 * np.linspace(0, 1, len(p1))
+    R = np.array([1.32, 1.45, 1.58, 1.66])
+    Z = np.array([-0.12, 0.05, 0.17, -0.2])
+    built = {}
+    for tag, opts in (("default", {}), ("twopi", {"psi_divide_twopi": True}), ("reversed", {"reverse_current": True}), ("default-again", {})):
+        try:
+            with warnings.catch_warnings(), contextlib.redirect_stdout(io.StringIO()):
+                warnings.simplefilter("ignore")
+                eq = tokamak.TokamakEquilibrium(r1, z1, p2, p1, fpol, make_regions=False, settings=dict(opts))
+            built[tag] = (np.array(eq.psi(R, Z), dtype=float), np.hypot(np.array(eq.Bp_R(R, Z), dtype=float), np.array(eq.Bp_Z(R, Z), dtype=float)))
+        except Exception as e:
+            res.extra.setdefault("refused", []).append(["shared arrays " + tag, str(e)[:160]])
+            return
+    p0, b0 = built["default"]
+    for tag, fpsi, fb in (("twopi", 1.0 / (2 * np.pi), 1.0 / (2 * np.pi)), ("reversed", -1.0, 1.0), ("default-again", 1.0, 1.0)):
+        res.case(key=("shared-arrays", tag), nontrivial=True, sample={"op": "equilibria from the same arrays", "option": tag})
+        p, b = built[tag]
+        e1 = float(np.max(np.abs(p - fpsi * p0)) / np.max(np.abs(p0)))
+        e2 = float(np.max(np.abs(b - fb * b0)) / np.max(np.abs(b0)))
+        if e1 > 1e-9 or e2 > 1e-9:
+            res.violation("shared-arrays-relation:" + tag, "equilibria built one after the other from the same input arrays: psi of the '%s' one is not %.6g x psi of the "
+                          "first (relative error %.3g; |Bp| %.3g)" % (tag, fpsi, e1, e2), {"option": tag})
+        else:
+            res.traces += 1
 
 
 def replay(rep):
